@@ -8,7 +8,8 @@
    The per-history agreement of model and server (fresh views at quiescence points included) is checked on every run. *)
 From Coq Require Import List NArith Bool.
 From Gluon Require Import Gen.FactsFilters Model.FilterPolicy Model.Responders Model.Session Proofs.MirrorProofs Proofs.PopProofs
-  Proofs.ConvergeProofs Proofs.MembershipProofs Proofs.ViewProofs Proofs.StoreViewProofs Proofs.SessionWitness.
+  Proofs.ConvergeProofs Proofs.MembershipProofs Proofs.ViewProofs Proofs.StoreViewProofs Proofs.CommuteProofs Proofs.InterleaveProofs
+  Proofs.SessionWitness.
 Import ListNotations.
 Open Scope N_scope.
 
@@ -132,6 +133,39 @@ Example C02_store_hypotheses_hold :
   let '(w, _) := run (init_world 2 1) h in
   flags_total_b w 0 = true /\ no_shared_deleted_b w = true /\ length (fresh_view w 0) = 2%nat.
 Proof. vm_compute. repeat split. Qed.
+
+(* "for every placement of the observing session's own flushes (before, between or after the other parties' steps)":
+   a flush on behalf of FETCH / STORE / SEARCH handles the queued responders in another order than they were queued (it
+   holds back removals, re-additions and the flag changes of re-added messages). V rs s is the snapshot that handling
+   the responders rs one by one in queue order makes of s. For every well-formed stream of foreign responders
+   (wf: the snapshot is sorted by UID with unique message ids, the UIDs announced by the stream are pairwise distinct
+   and not in the snapshot; alt: per message, a re-addition is followed by a removal before the next re-addition)
+   and ANY number of rounds "more responders arrive, then a flush that holds removals back or a permitting one", ending
+   with a permitting flush: every flush succeeds, nothing stays queued, and the snapshot is V (whole stream) s.
+   Proof: Proofs/CommuteProofs.v (responders about different messages commute on sorted snapshots) and
+   Proofs/InterleaveProofs.v (what is held back never conflicts with what is handled before it). *)
+Theorem C02_any_flush_placement_in_order : forall sc s res,
+  wf s (res ++ script_queue sc) -> (forall m, alt m (res ++ script_queue sc)) ->
+  (sc = [] -> res = []) ->
+  (forall x, last (map snd sc) true = x -> x = true) ->
+  exists st' out, run_script sc (mkS s res) = Some (st', out) /\ s_res st' = [] /\
+                  s_snap st' = V (res ++ script_queue sc) s.
+Proof. exact script_in_order. Qed.
+Print Assumptions C02_any_flush_placement_in_order.
+
+Theorem C02_restricted_then_permitting_flush_in_order : forall s rs, wf s rs -> (forall m, alt m rs) ->
+  exists st1 o1 st2 o2,
+    flush_raw false (mkS s rs) = Some (st1, o1) /\ flush_raw true st1 = Some (st2, o2) /\
+    s_res st2 = [] /\ s_snap st2 = V rs s.
+Proof. exact two_flushes_in_order. Qed.
+Print Assumptions C02_restricted_then_permitting_flush_in_order.
+
+(* the hypotheses hold for the queue of the repaired defect (message 1 removed, put back as UID 3, flagged) plus a new message *)
+Example C02_flush_placement_hypotheses_hold :
+  let s := [mkSmsg 1 1 []; mkSmsg 2 2 []] in
+  let rs := [RExpunge 1; RExists 1 3 [] false false; RFetch 1 [5] FAdd false false false; RExists 7 4 [] false false] in
+  wf s rs /\ (forall m, alt m rs) /\ V rs s = [mkSmsg 2 2 []; mkSmsg 1 3 [5]; mkSmsg 7 4 []].
+Proof. exact wf_example. Qed.
 
 (* a repaired defect that the attempt to prove convergence for interleaved flushes exposed (replayed on the server:
    corpus scenario readd-while-held-then-flags; fix: commit dec5b54): with the pop policy before the repair a
